@@ -97,6 +97,7 @@ static inline void check_clauses(const Abs& pre, const Abs& post, const Ev& ev, 
     VF_P(2, 2, r.size <= HCAP);
 #endif
     VF_P(2, 3, r.empty == (r.size == 0));
+    VF_P(2, 8, r.size == r.idx_n); // the counter agrees with the key index that lookups consult
 #if T_TTL == 0
     VF_P(2, 4, r.size == post.n);
 #elif !T_PURGE
